@@ -4,6 +4,7 @@ the same, unchanged arguments."""
 from .base import *
 from ..fnharness import FnCase, run_cases
 from ..loops import InvLoop
+from ..engine import Unsupported
 from ..engine import Path
 from ..pymodels import copy_of
 
@@ -383,6 +384,51 @@ def dispatch_cases():
     return out
 
 
+class SortOp(FnCase):
+    """rs.data.sort(key, reverse) = to_list ; map(lambda i: sorted(i, key=key, reverse=reverse)) ; to_deque(extend=True): the mapper makes ONE call
+    of the (trusted, stable) builtin sort on the collected items with the caller's key and reverse flag and returns its result"""
+    name = 'sort/term_and_mapper'
+    internal_representation = True       # another correct stable sort would also do: a refutation counts with a failing input only
+
+    def setup(self, eng, p):
+        from .wrappers import chain_of
+        self.eng = eng
+        self.key = UserFn('key'); self.rev = Const('reverse', BoolSort())
+        f = eng.world.closure_of('rxsci.data.sort', 'sort')
+        (q, op), = eng.call(p, f, [], {'key': self.key, 'reverse': SBool(self.rev)})
+        (q, obs), = eng.call(q, op, [Host('source', is_mux=False, name='source')], {})
+        self.chain = chain_of(eng, q, obs)
+        mapper = None
+        for qual, env in self.chain:
+            if isinstance(env.get('mapper'), Closure): mapper = env['mapper']
+            elif qual == 'rx.map' and env.get('args') and isinstance(env['args'][0], Closure): mapper = env['args'][0]
+        if mapper is None:
+            raise Unsupported('sort: no map stage with an in-repo mapper found in the pipeline')
+        q.calls = []; q.trace = T0; q.pc = []
+        self.path = q
+        return mapper, [SVal(X_)], {}
+
+    def on_exception(self, q): return BoolVal(False)
+
+    def ensures(self, q, ret):
+        from ..heapmodels import stable_sort
+        names = [c[0] for c in self.chain]
+        shape = len(names) == 3 and ('to_iterable' in names[0] or 'to_list' in names[0] or 'scan' in names[0]) and 'map' in names[1]
+        td = self.chain[-1][1] if self.chain else {}
+        calls = [c for c in q.calls if c[0] == 'builtins.sorted']
+        one = len(calls) == 1
+        ktag = self.eng.to_val(q, self.key)
+        res = q.heap[ret.oid][1] if isinstance(ret, Ref) and q.heap[ret.oid][0] == 'slist' else None
+        return [('collect_then_sort_then_flatten', BoolVal(bool(shape) and 'to_deque' in names[-1] and td.get('extend') is True)),
+                ('one_stable_sort_of_all_items_with_the_callers_key_and_reverse', And(calls[0][1][0] == items_of(X_), calls[0][1][1] == ktag, calls[0][1][2] == self.rev) if one else BoolVal(False)),
+                ('returns_the_sorted_list', (res == stable_sort(items_of(X_), ktag, self.rev)) if res is not None else BoolVal(False)),
+                ('argument_not_mutated', BoolVal(True))]
+
+    def e2e(self):
+        from ..bounded.mux import check_c10
+        return next((f for f in (check_c10({}).get('failures') or []) if 'sort' in str(f)), None)
+
+
 def unit_plain(opts):
     which = opts.get('which', 'all')
     cases = []
@@ -396,6 +442,7 @@ def unit_plain(opts):
         cases += [TeePlain(n, j, b, h) for n in (2, 3) for j in ('zip', 'combine_latest', 'merge') for b in range(n) for h in ('on_next', 'on_completed')]
     if which in ('all', 'to_deque'):
         cases += [ToDeque(e, h) for e in (True, False) for h in ('on_next', 'on_completed')]
+        cases += [SortOp()]
     if which in ('all', 'dispatch'):
         cases += dispatch_cases()
     return run_cases(f'plain.{which}', cases, opts)
